@@ -311,6 +311,11 @@ def gen_script(rng, knobs):
           break
         script.append(["ctl", "CR"])
         row_units = gen_row_units(rng, rng.choice([15, 15, 15, 14, 13, 12, 1, 2, 3, 4]), rng.choice([10, 20, 30]), state)
+        if knobs.get("nopac") and rng.random() < knobs["nopac"]:
+          # text straight after the carriage return: column 1 of the base row, default attributes
+          while row_units and (row_units[0][0] == "pac" or (row_units[0][0] == "ctl" and row_units[0][1].startswith("TO"))):
+            row_units.pop(0)
+          state["color"] = 0
         script += row_units
         k += 1
         script.append(["gap", rng.choice([20, 45, 90])])
